@@ -97,6 +97,9 @@ fn main() {
         "exp" => {
             props::exp::run();
         }
+        "native-corpus" => {
+            props::c15::native_corpus();
+        }
         "smoke" => {
             props::smoke::run();
         }
